@@ -75,6 +75,12 @@ pub enum Ty {
     BigSum(u32),
     /// product of two BigUints of the given `nb_bits`
     BigMul(u32),
+    /// emulated field element computed by linear operations (add / sub / neg / add_constant) on
+    /// assigned elements and exposed without any operation in between: its limbs are not
+    /// normalised when the exposure starts
+    SecpBLin,
+    SecpSLin,
+    BlsBLin,
 }
 
 impl Ty {
@@ -94,6 +100,9 @@ impl Ty {
             Ty::Big(_) => "AssignedBigUint",
             Ty::BigSum(_) => "AssignedBigUint(sum)",
             Ty::BigMul(_) => "AssignedBigUint(product)",
+            Ty::SecpBLin => "AssignedField<secp256k1-base>(linear)",
+            Ty::SecpSLin => "AssignedField<secp256k1-scalar>(linear)",
+            Ty::BlsBLin => "AssignedField<bls12-381-base>(linear)",
         }
     }
     pub fn tag(self) -> String {
@@ -108,7 +117,7 @@ impl Ty {
         match self {
             Ty::Bit | Ty::Byte | Ty::Nat => vec![Path::Constrain, Path::Assign, Path::Fixed, Path::Committed],
             Ty::Big(_) => vec![Path::Constrain, Path::Fixed],
-            Ty::BigSum(_) | Ty::BigMul(_) => vec![Path::Constrain],
+            Ty::BigSum(_) | Ty::BigMul(_) | Ty::SecpBLin | Ty::SecpSLin | Ty::BlsBLin => vec![Path::Constrain],
             _ => vec![Path::Constrain, Path::Assign, Path::Fixed],
         }
     }
@@ -129,6 +138,21 @@ pub enum Val {
     Big(BigUint, u32),
     BigSum(BigUint, BigUint, u32),
     BigMul(BigUint, BigUint, u32),
+    /// (a, b, op): 0 = a + b, 1 = a - b, 2 = -a, 3 = (a + b) + b, 4 = a + 1 (add_constant)
+    SecpBLin(KFp, KFp, u8),
+    SecpSLin(KFq, KFq, u8),
+    BlsBLin(BlsFp, BlsFp, u8),
+}
+
+/// value of a linear combination case
+pub fn lin_value<K: CircuitField>(a: &K, b: &K, op: u8) -> K {
+    match op {
+        0 => *a + *b,
+        1 => *a - *b,
+        2 => -*a,
+        3 => *a + *b + *b,
+        _ => *a + K::ONE,
+    }
 }
 
 thread_local! {
@@ -159,6 +183,9 @@ impl Val {
             Val::Big(_, n) => Ty::Big(*n),
             Val::BigSum(_, _, n) => Ty::BigSum(*n),
             Val::BigMul(_, _, n) => Ty::BigMul(*n),
+            Val::SecpBLin(..) => Ty::SecpBLin,
+            Val::SecpSLin(..) => Ty::SecpSLin,
+            Val::BlsBLin(..) => Ty::BlsBLin,
         }
     }
 
@@ -180,6 +207,9 @@ impl Val {
             Val::Big(v, n) => AssignedBigUint::<F>::as_public_input(v, derived_nb.unwrap_or(*n)),
             Val::BigSum(a, b, _) => AssignedBigUint::<F>::as_public_input(&(a + b), derived_nb.expect("derived nb_bits")),
             Val::BigMul(a, b, _) => AssignedBigUint::<F>::as_public_input(&(a * b), derived_nb.expect("derived nb_bits")),
+            Val::SecpBLin(a, b, op) => <AssignedField<F, KFp, MEP> as Instantiable<F>>::as_public_input(&lin_value(a, b, *op)),
+            Val::SecpSLin(a, b, op) => <AssignedField<F, KFq, MEP> as Instantiable<F>>::as_public_input(&lin_value(a, b, *op)),
+            Val::BlsBLin(a, b, op) => <AssignedField<F, BlsFp, MEP> as Instantiable<F>>::as_public_input(&lin_value(a, b, *op)),
         }
     }
 
@@ -234,6 +264,9 @@ impl Val {
             Val::Big(v, n) => big(v, derived_nb.unwrap_or(*n)),
             Val::BigSum(a, b, _) => big(&(a + b), derived_nb.expect("derived nb_bits")),
             Val::BigMul(a, b, _) => big(&(a * b), derived_nb.expect("derived nb_bits")),
+            Val::SecpBLin(a, b, op) => emulated(&lin_value(a, b, *op), 64, 4),
+            Val::SecpSLin(a, b, op) => emulated(&lin_value(a, b, *op), 64, 4),
+            Val::BlsBLin(a, b, op) => emulated(&lin_value(a, b, *op), 56, 7),
         }
     }
 
@@ -255,6 +288,9 @@ impl Val {
             Val::Big(v, _) => v.to_str_radix(16),
             Val::BigSum(a, b, _) => (a + b).to_str_radix(16),
             Val::BigMul(a, b, _) => (a * b).to_str_radix(16),
+            Val::SecpBLin(a, b, op) => lin_value(a, b, *op).to_biguint().to_str_radix(16),
+            Val::SecpSLin(a, b, op) => lin_value(a, b, *op).to_biguint().to_str_radix(16),
+            Val::BlsBLin(a, b, op) => lin_value(a, b, *op).to_biguint().to_str_radix(16),
         }
     }
 
@@ -263,6 +299,9 @@ impl Val {
             Val::Big(v, n) => format!("BigUint(0x{}, nb_bits={n})", v.to_str_radix(16)),
             Val::BigSum(a, b, n) => format!("BigUint(0x{} + 0x{}, operand nb_bits={n})", a.to_str_radix(16), b.to_str_radix(16)),
             Val::BigMul(a, b, n) => format!("BigUint(0x{} * 0x{}, operand nb_bits={n})", a.to_str_radix(16), b.to_str_radix(16)),
+            Val::SecpBLin(a, b, op) => format!("secp256k1-base lin(op {op}; 0x{}, 0x{})", a.to_biguint().to_str_radix(16), b.to_biguint().to_str_radix(16)),
+            Val::SecpSLin(a, b, op) => format!("secp256k1-scalar lin(op {op}; 0x{}, 0x{})", a.to_biguint().to_str_radix(16), b.to_biguint().to_str_radix(16)),
+            Val::BlsBLin(a, b, op) => format!("bls12-381-base lin(op {op}; 0x{}, 0x{})", a.to_biguint().to_str_radix(16), b.to_biguint().to_str_radix(16)),
             v => format!("{}(0x{})", v.ty().tag(), v.identity()),
         }
     }
@@ -310,6 +349,31 @@ where
     let cells = chip.as_public_input(l, &x)?;
     log_cells(slot, &cells);
     Ok(x)
+}
+
+/// assign a and b, combine them with linear operations only, expose the result
+fn expose_lin<T, CH>(chip: &CH, l: &mut impl Layouter<F>, slot: usize, a: Value<T::Element>, b: Value<T::Element>, op: u8) -> Result<(), Error>
+where
+    T: Instantiable<F> + Clone,
+    T::Element: CircuitField,
+    CH: AssignmentInstructions<F, T> + PublicInputInstructions<F, T> + midnight_circuits::instructions::ArithInstructions<F, T>,
+{
+    let x: T = chip.assign(l, a)?;
+    let y: T = chip.assign(l, b)?;
+    let z: T = match op {
+        0 => chip.add(l, &x, &y)?,
+        1 => chip.sub(l, &x, &y)?,
+        2 => chip.neg(l, &x)?,
+        3 => {
+            let t = chip.add(l, &x, &y)?;
+            chip.add(l, &t, &y)?
+        }
+        _ => chip.add_constant(l, &x, <T::Element as ff::Field>::ONE)?,
+    };
+    chip.constrain_as_public_input(l, &z)?;
+    let cells = chip.as_public_input(l, &z)?;
+    log_cells(slot, &cells);
+    Ok(())
 }
 
 pub fn expose(std: &ZkStdLib, l: &mut impl Layouter<F>, slot: usize, val: &Val, known: &Value<()>, path: Path) -> Result<(), Error> {
@@ -375,6 +439,9 @@ pub fn expose(std: &ZkStdLib, l: &mut impl Layouter<F>, slot: usize, val: &Val, 
                 }
             }
         }
+        Val::SecpBLin(a, b, op) => expose_lin(std.secp256k1_curve().base_field_chip(), l, slot, v!(a), v!(b), *op)?,
+        Val::SecpSLin(a, b, op) => expose_lin(std.secp256k1_scalar(), l, slot, v!(a), v!(b), *op)?,
+        Val::BlsBLin(a, b, op) => expose_lin(std.bls12_381_curve().base_field_chip(), l, slot, v!(a), v!(b), *op)?,
         Val::BigSum(a, b, nb) | Val::BigMul(a, b, nb) => {
             let g = std.biguint();
             let x = g.assign_biguint(l, v!(a), *nb)?;
@@ -430,8 +497,8 @@ impl Relation for Expose {
         let has = |f: &dyn Fn(Ty) -> bool| self.items.iter().any(|(v, _)| f(v.ty()));
         ZkStdLibArch {
             jubjub: has(&|t| matches!(t, Ty::JubP | Ty::JubS)),
-            secp256k1: has(&|t| matches!(t, Ty::SecpS | Ty::SecpB | Ty::SecpP)),
-            bls12_381: has(&|t| matches!(t, Ty::BlsB | Ty::BlsP)),
+            secp256k1: has(&|t| matches!(t, Ty::SecpS | Ty::SecpB | Ty::SecpP | Ty::SecpBLin | Ty::SecpSLin)),
+            bls12_381: has(&|t| matches!(t, Ty::BlsB | Ty::BlsP | Ty::BlsBLin)),
             ..ZkStdLibArch::default()
         }
     }
@@ -578,6 +645,32 @@ pub fn alphabets(seed: u64, thorough: bool) -> Vec<Alphabet> {
     }
     out.push(Alphabet { ty: Ty::SecpP, members: point_alphabet::<K256>(&mut rng).into_iter().map(|(n, x)| (n, Val::SecpP(x))).collect() });
     out.push(Alphabet { ty: Ty::BlsP, members: point_alphabet::<G1Projective>(&mut rng).into_iter().map(|(n, x)| (n, Val::BlsP(x))).collect() });
+    // computed emulated elements: operand pairs that carry, borrow and wrap around the modulus
+    {
+        fn lin_pairs<K: CircuitField>(rng: &mut impl RngCore) -> Vec<(String, K, K, u8)> {
+            let m1 = -K::ONE;
+            let r0 = K::random(&mut *rng);
+            let r1 = K::random(&mut *rng);
+            let half = m1 * K::from(2).invert().unwrap();
+            vec![
+                ("(m-1)+(m-1)".into(), m1, m1, 0),
+                ("0-1".into(), K::ZERO, K::ONE, 1),
+                ("-(1)".into(), K::ONE, K::ZERO, 2),
+                ("r0+r1".into(), r0, r1, 0),
+                ("5+7".into(), K::from(5), K::from(7), 0),
+                ("r0-r1".into(), r0, r1, 1),
+                ("-r0".into(), r0, K::ZERO, 2),
+                ("(m-1)+1+1".into(), m1, K::ONE, 3),
+                ("(m-1)+const 1".into(), m1, K::ZERO, 4),
+                ("half+half".into(), half, half, 0),
+                ("0+0".into(), K::ZERO, K::ZERO, 0),
+                ("-(0)".into(), K::ZERO, K::ZERO, 2),
+            ]
+        }
+        out.push(Alphabet { ty: Ty::SecpBLin, members: lin_pairs::<KFp>(&mut rng).into_iter().map(|(n, a, b, o)| (n, Val::SecpBLin(a, b, o))).collect() });
+        out.push(Alphabet { ty: Ty::SecpSLin, members: lin_pairs::<KFq>(&mut rng).into_iter().map(|(n, a, b, o)| (n, Val::SecpSLin(a, b, o))).collect() });
+        out.push(Alphabet { ty: Ty::BlsBLin, members: lin_pairs::<BlsFp>(&mut rng).into_iter().map(|(n, a, b, o)| (n, Val::BlsBLin(a, b, o))).collect() });
+    }
     for nb in big_nb_bits(thorough) {
         out.push(Alphabet { ty: Ty::Big(nb), members: big_values(nb, &mut rng).into_iter().map(|(n, x)| (n, Val::Big(x, nb))).collect() });
     }
@@ -604,6 +697,8 @@ pub fn quick_pick(ty: Ty) -> usize {
         Ty::Big(_) => 3,
         Ty::BigSum(_) | Ty::BigMul(_) => 2,
         Ty::BlsP | Ty::SecpP | Ty::BlsB => 3,
+        Ty::SecpBLin => 4,
+        Ty::SecpSLin | Ty::BlsBLin => 3,
         _ => 4,
     }
 }
